@@ -119,6 +119,22 @@ class Obj(object):
         self.fields = dict(fields)
 
 
+class SymSeq(object):
+    """a Python list of objects of unknown length, read-only: length term + per-field columns (field f of element k is cols[f][k]).
+    cols[f] = ('int', array term) | ('int1', 2-D array term, lengths array term)"""
+    def __init__(self, cls, length, cols):
+        self.cls, self.length, self.cols = cls, length, cols
+
+    def elem(self, k):
+        fields = {}
+        for f, c in self.cols.items():
+            if c[0] == 'int':
+                fields[f] = z3.Select(c[1], k)
+            else:
+                fields[f] = AV(z3.Select(c[1], k), (z3.Select(c[2], k),), 'int')
+        return Obj(self.cls, fields)
+
+
 class PyConst(object):
     """a concrete Python constant bound to a parameter by a contract variant (e.g. c = 1j)"""
     def __init__(self, value):
@@ -542,6 +558,8 @@ class SpecEval(object):
             if not z3.is_int_value(k):
                 raise ContractError('tuple index must be constant')
             return self.resolve(v[k.as_long()])
+        if isinstance(v, SymSeq):
+            return v.elem(as_num(self.ev(sl)))
         if isinstance(v, AV):
             if isinstance(sl, ast.Tuple):
                 idx = [as_num(self.ev(e)) for e in sl.elts]
@@ -653,6 +671,8 @@ class SpecEval(object):
             return z3.Implies(a0, as_bool(self.ev(n.args[1])))
         args = [self.ev(a) for a in n.args]
         if f == 'len':
+            if isinstance(args[0], SymSeq):
+                return args[0].length
             if isinstance(args[0], ListObj):
                 return z3.IntVal(len(args[0].items))
             return args[0].shape[0] if isinstance(args[0], AV) else z3.IntVal(len(args[0]))
